@@ -91,6 +91,9 @@ def _configs(tier):
             for parts in _compositions(total, 3):
                 for extra in (0, 1):
                     A({'block': b, 'parts': '+'.join(map(str, parts)), 'extra': extra})
+        # the same wire more than once in the list (manual sign extension {s,s,s,x}, duplication {n,n})
+        for parts, rep in (('1+2', '0+0+1'), ('1+2', '0+1+0'), ('1+2', '1+1'), ('1+2', '0+0+0+0+1'), ('1', '0+0'), ('2', '0+0+0')):
+            A({'block': b, 'parts': parts, 'rep': rep, 'extra': 0})
     for w in W3:
         for selw in (1, 2):
             A({'block': 'Mux2', 'w': w, 'selw': selw})
@@ -183,7 +186,8 @@ def _inbits(d):
     if b == 'BufEnable':
         return w + 1
     if b in ('ConcatenateLSBF', 'ConcatenateMSBF'):
-        return sum(logic.ints(d['parts']))
+        pws = logic.ints(d['parts'])
+        return sum(pws[i] for i in set(logic.ints(d['rep']))) if d.get('rep') else sum(pws)
     if b == 'Mux':
         return (1 << d['k']) * w + d['k']
     if b == 'Demux':
@@ -250,7 +254,12 @@ def build(d):
         args = (I('a', w), OL('b', w))
     elif b in ('ConcatenateLSBF', 'ConcatenateMSBF'):
         pws = logic.ints(d['parts'])
-        args = ([I('in%d' % i, pw) for i, pw in enumerate(pws)], O('r', sum(pws) + d['extra']))
+        if d.get('rep'):
+            idx = logic.ints(d['rep'])
+            ws = {i: I('in%d' % i, pws[i]) for i in sorted(set(idx))}      # only the wires that appear in the list
+            args = ([ws[i] for i in idx], O('r', sum(pws[i] for i in idx) + d['extra']))
+        else:
+            args = ([I('in%d' % i, pw) for i, pw in enumerate(pws)], O('r', sum(pws) + d['extra']))
     elif b == 'Repeat':
         args = (I('i'), O('r', w))
     elif b == 'Mux2':
